@@ -417,6 +417,7 @@ pub fn shutdown() {
             }
             old.teardown();
         }
+        mapwatch::unmap_leftovers();
     })
 }
 
